@@ -126,6 +126,7 @@ def one_violation(prop: str, problems: list[tuple[str, str, str]], h: Any = None
         return []
     cls, _, tail = problems[0]
     sig = f"{prop}:{tail or cls}"
+    tails = [t or c for c, _, t in problems]      # every difference found, not only the first (for listed findings)
     stale: list[str] = []
     if h is not None:
         from sim.oracles import stale_applications
@@ -186,4 +187,4 @@ def one_violation(prop: str, problems: list[tuple[str, str, str]], h: Any = None
                                                  f"stage(s) {x['not_rearmed']} between them untouched (fan-in with an upstream outside "
                                                  f"the re-armed set): nothing restarts {x['source']}", "")]
     msg = " || ".join(f"{c}: {m}" for c, m, _ in problems)
-    return [V(prop, cls, msg, sig=sig, classes=[c for c, _, _ in problems], stale=stale, planlost=planlost, jumppath=jumppath, sweepwindow=sweepwindow)]
+    return [V(prop, cls, msg, sig=sig, classes=[c for c, _, _ in problems], stale=stale, planlost=planlost, jumppath=jumppath, sweepwindow=sweepwindow, tails=tails)]
